@@ -19,7 +19,7 @@ FUNCTIONS = [
     "gbigsmiles.system.System.__init__ / generable / system_mass / generate_string (concrete component chemistry)",
 ]
 EXPLANATION = (
-    "For every assignment of {absolute, percent, unspecified} to k components (k<=3 quick, <=5 thorough), with and without a "
+    "For every assignment of {absolute, percent, unspecified} to k components (k<=4 quick, <=5 thorough), with and without a "
     "caller-supplied system mass, the written numbers are solver variables (masses in [1e-3,1e9], percentages in (0,100]). The real "
     "Mixture constructor parses them from symbolic text ('.|<numeral>|', '.|<numeral>%|'), the real _estimate_system_molecular_weight and the "
     "linked setters run on them. On every path: (soundness) if the code reports generable, z3 proves that every component has percentage, "
@@ -43,11 +43,11 @@ ABS, PCT, UN = "abs", "pct", "un"
 
 
 def bounds(tier):
-    return {"components": 3 if tier == "quick" else 5, "masses": "[1e-3, 1e9]", "percentages": "(0, 100]", "system mass": "absent or [1e-3, 1e9]"}
+    return {"components": 4 if tier == "quick" else 5, "masses": "[1e-3, 1e9]", "percentages": "(0, 100]", "system mass": "absent or [1e-3, 1e9]"}
 
 
 def cases(tier):
-    kmax = 3 if tier == "quick" else 5
+    kmax = 4 if tier == "quick" else 5
     out = []
     for k in range(1, kmax + 1):
         for kinds in itertools.product((ABS, PCT, UN), repeat=k):
